@@ -43,9 +43,13 @@ type s3proxy struct {
 	plan    func(idx int, kind, key string) int
 	idx     int
 	url     string
+	hold    chan struct{} // when set: every request waits until it is closed (a stalled endpoint)
 }
 
 func (p *s3proxy) ServeHTTP(w http.ResponseWriter, r *http.Request) {
+	if p.hold != nil {
+		<-p.hold
+	}
 	kind := "?"
 	path := strings.TrimPrefix(r.URL.Path, "/")
 	parts := strings.SplitN(path, "/", 2)
@@ -1261,6 +1265,12 @@ func runL2T(seed int64, n int, dir string) error {
 			total["hist_threaded"]++
 		}
 	}
+	for k := 0; k < 2; k++ {
+		id++
+		fmt.Fprintf(cw, "%d probe stalled-endpoint\n", id)
+		fmt.Fprintf(iw, "%d %s\n", id, probeStall())
+		total["probe_stall"]++
+	}
 	sf, _ := os.Create(dir + "/stats.txt")
 	defer sf.Close()
 	keys := make([]string, 0, len(total))
@@ -1314,6 +1324,13 @@ func runL2(seed int64, n int, dir string, profName string) error {
 		fmt.Fprintf(cw, "%d sqlhist%s\n", c, in)
 		fmt.Fprintf(iw, "%d%s\n", c, out)
 		stats["hist_"+profName]++
+	}
+	if profName == "tx" {
+		for k := 0; k < 3; k++ {
+			fmt.Fprintf(cw, "%d probe tx-time-two-tables\n", n+1+k)
+			fmt.Fprintf(iw, "%d %s\n", n+1+k, probeTxTime())
+			stats["probe_txtime"]++
+		}
 	}
 	sf, _ := os.Create(dir + "/stats.txt")
 	defer sf.Close()
